@@ -43,6 +43,9 @@ def run(ctx):
     ctx.rule("R08.v", "link model, _resolve_ref: interpreted on a plain value / a reference to ordinary, constant or mixed sources / a reference whose evaluation is skipped / a coroutine function / "
                       "an asynchronous generator / a coroutine bound to a parameter: everything with dependencies or asynchronous comes back as a reference (the assigned object, all its "
                       "dependencies), whatever kind of parameter the sources are; the value is the resolved one, Undefined when skipped, None while pending; scheduled once", floor=1)
+    ctx.rule("R08.y", "Dynamic set model: Dynamic.__set__ interpreted (instance / class route; a number, a generator, a callable reference resolving to a number or to a generator): generator state is "
+                      "attached to the value that was stored when it is a callable, never to the reference itself (a bound method cannot carry it: the assignment would raise after the store "
+                      "and the link)", floor=1)
     ctx.rule("R08.d", "every reference is installed: in Parameter.__set__ the relink decision holds whenever _resolve_ref returned a reference (top-level disjunct `ref is not None`), "
                       "and the constructor records refs[name] = ref under exactly `ref is not None`", floor=2)
     ctx.rule("R08.e", "_sync_refs re-resolves exactly the links one of whose dependencies matches one of the delivered events by (owner identity, name) -- decided by abstract "
@@ -392,6 +395,8 @@ def run(ctx):
     from checks import link_model
     link_model.report(ctx, "C08", "R08.l")
     link_model.report_resolve(ctx, "R08.v")
+    from checks.shared import dynamic_set_model
+    dynamic_set_model(ctx, "R08.y")
     from checks import trigger_model
     trigger_model.report(ctx, "C08", "R08.t")
     from checks import cm_model
